@@ -30,6 +30,7 @@ const (
 type Tok struct {
 	S   string
 	Gap int
+	Str bool // the token lies inside an interpolated string / heredoc / backtick string (text or embedded expression)
 }
 
 // Kid is one role of the expected tree.
@@ -471,6 +472,25 @@ func (g *G) encapsVar(depth int) *Node {
 	return vAdj()
 }
 
+// markStr marks every token below ps as lying inside a string.
+func markStr(ps []interface{}) []interface{} {
+	out := make([]interface{}, len(ps))
+	for i, p := range ps {
+		switch v := p.(type) {
+		case Tok:
+			v.Str = true
+			out[i] = v
+		case *Node:
+			c := *v
+			c.Parts = markStr(v.Parts)
+			out[i] = &c
+		default:
+			out[i] = p
+		}
+	}
+	return out
+}
+
 func glueAll(ps []interface{}) []interface{} {
 	out := make([]interface{}, len(ps))
 	for i, p := range ps {
@@ -534,7 +554,7 @@ func (g *G) encapsed(depth int) *Node {
 	ns, ps := g.encapsParts(depth, '"', false)
 	open := "\""
 
-	return &Node{Kind: "ScalarEncapsed", Kids: []Kid{list("Parts", ns)}, Parts: parts(t(open), ps, tn("\"")), Prec: 100}
+	return &Node{Kind: "ScalarEncapsed", Kids: []Kid{list("Parts", ns)}, Parts: parts(t(open), markStr(ps), tn("\"")), Prec: 100}
 }
 
 func (g *G) shellExec(depth int) *Node {
@@ -543,7 +563,7 @@ func (g *G) shellExec(depth int) *Node {
 		return &Node{Kind: "ExprShellExec", Kids: []Kid{list("Parts", []*Node{p})}, Parts: parts(t("`"), p, tn("`")), Prec: 100}
 	}
 	ns, ps := g.encapsParts(depth, '`', false)
-	return &Node{Kind: "ExprShellExec", Kids: []Kid{list("Parts", ns)}, Parts: parts(t("`"), ps, tn("`")), Prec: 100}
+	return &Node{Kind: "ExprShellExec", Kids: []Kid{list("Parts", ns)}, Parts: parts(t("`"), markStr(ps), tn("`")), Prec: 100}
 }
 
 // heredoc builds a heredoc/nowdoc expression. The closing label (classic form) must be
@@ -625,7 +645,7 @@ func (g *G) heredoc(depth int) *Node {
 		last.Val += indent
 		last.Parts = []interface{}{tn(last.Val)}
 	}
-	n := &Node{Kind: "ScalarHeredoc", Kids: []Kid{list("Parts", ns)}, Parts: parts(t(openTxt), ps, tn(label)), Prec: 100}
+	n := &Node{Kind: "ScalarHeredoc", Kids: []Kid{list("Parts", ns)}, Parts: parts(t(openTxt), markStr(ps), tn(label)), Prec: 100}
 	if flex {
 		n.Flags |= FFlex73
 	}
